@@ -13,6 +13,7 @@ pub mod c07;
 pub mod c08;
 pub mod bddutil;
 pub mod c10;
+pub mod c11;
 pub mod c12;
 pub mod c13;
 pub mod c14;
@@ -38,6 +39,7 @@ pub fn registry() -> Vec<Prop> {
         Prop { id: "C08", run: c08::run, replay: c08::replay },
         Prop { id: "C09", run: c09::run, replay: c09::replay },
         Prop { id: "C10", run: c10::run, replay: c10::replay },
+        Prop { id: "C11", run: c11::run, replay: c11::replay },
         Prop { id: "C12", run: c12::run, replay: c12::replay },
         Prop { id: "C13", run: c13::run, replay: c13::replay },
         Prop { id: "C14", run: c14::run, replay: c14::replay },
